@@ -90,6 +90,26 @@ func sectionHeaderSpec(c *layout.Checker) []*layout.Source {
 	return out
 }
 
+// unparsedSectionSpec: sections of tables the library knows but does not decode (BAT, RST, ST, TDT, DIT, SIT). They carry
+// no CRC_32 for the library; what matters is that the whole section (3 + section_length bytes) is consumed so that the
+// section that follows it in the same unit is found.
+func unparsedSectionSpec(c *layout.Checker) []*layout.Source {
+	var out []*layout.Source
+	for _, id := range []int64{0x4a, 0x70, 0x71, 0x72, 0x7e, 0x7f} {
+		for _, n := range []int64{0, 5} {
+			b := c.NewSpec(fmt.Sprintf("section of table id 0x%02x with %d body bytes", id, n))
+			b.Field(8, "$s/Header.TableID").Flag("$s/Header.SectionSyntaxIndicator").Flag("$s/Header.PrivateBit").Const(2, 3)
+			b.Fix("$s/Header.TableID", id)
+			b.Const(12, uint64(n)) // section_length
+			if n > 0 {
+				b.Opaque(int(8*n), "$body")
+			}
+			out = append(out, b.Source())
+		}
+	}
+	return out
+}
+
 func tableIDExt(*layout.Source) *lin.Form { f := lin.Sym("$tableIDExtension"); return &f }
 
 func c13SpecPairs(c *Ctx) []layout.RTPair {
@@ -97,6 +117,17 @@ func c13SpecPairs(c *Ctx) []layout.RTPair {
 	return []layout.RTPair{
 		{Name: "psi-section-header", Parser: c.fn("parsePSISectionHeader"), Sources: sectionHeaderSpec, It: "$i", Root: "$h", RootPtr: true, MinSources: 7,
 			NotWritten: map[string]string{"TableType": "a name derived from table_id (truth table T1), not a field of the stream"}},
+		{Name: "psi-section-unparsed", Parser: c.fn("parsePSISection"), Sources: unparsedSectionSpec, It: "$i", Root: "$s", RootPtr: true, MinSources: 12,
+			Computed: map[string]func(*layout.Source) *lin.Form{"Header.SectionLength": func(src *layout.Source) *lin.Form {
+				if !src.TotalOK || !layout.Div8(src.Total) {
+					return nil
+				}
+				f := layout.ScaleDown8(src.Total).AddC(-3)
+				return &f
+			}},
+			NotWritten: map[string]string{"Header.TableType": "a name derived from table_id (truth table T1), not a field of the stream",
+				"CRC32": "these tables carry no CRC_32 the library checks"},
+			ElsewherePrefix: "Syntax.", ElsewhereWhy: "the body of these tables is not decoded (the per-table pairs decide the decoded ones)"},
 		{Name: "sdt-section", Parser: c.fn("parseSDTSection"), Sources: sdtSpec, It: "$i", Root: "$d", RootPtr: true, MinSources: 3,
 			ParserParams: map[string]func(*layout.Source) lin.Form{"offsetSectionsEnd": endOfStream},
 			Computed:     map[string]func(*layout.Source) *lin.Form{"TransportStreamID": tableIDExt}},
